@@ -781,7 +781,15 @@ struct SimNode {
     id: Vec<u8>,
     addr: SocketAddr,
     peers: Vec<SocketAddr>,
+    /// the token of the node's latest answer
     token: Vec<u8>,
+    /// the node hands out another token with every answer (a rotating secret)
+    rotating: bool,
+    /// delivery time of its latest answer (answers of one node arrive in the order they were issued)
+    last_at: u128,
+    issued: u32,
+    /// every token the node ever handed out
+    history: Vec<Vec<u8>>,
 }
 
 fn dist(a: &[u8], b: &[u8]) -> Vec<u8> { a.iter().zip(b.iter()).map(|(x, y)| x ^ y).collect() }
@@ -809,7 +817,9 @@ async fn run_scenario(ctx: &mut Option<Ctx>, req: &str, case: usize, out: &mut V
         if cluster == 2 { let k = rng.range(1, 18) as usize; id[..k].copy_from_slice(&me[..k]); }
         let addr = parse_addr(&if v6 { format!("v6:20010db80000000000000000{:04x}{:04x}:{}", 1, i + 2, 8000 + i % 5) } else { format!("v4:{}:{}", hex(&[10, 2, (i >> 8) as u8, i as u8]), 8000 + i % 5) }).unwrap();
         let peers = if rng.chance(1, 3) { (0..rng.range(1, 4)).map(|_| { let f6 = rng.chance(1, 4); parse_addr(&gen_addr(&mut rng, f6, 500)).unwrap() }).collect() } else { vec![] };
-        SimNode { id, addr, peers, token: rng.bytes_below(30) }
+        // token lengths up to the longest the search records (MAX_TOKEN_LEN = 256)
+        let token = match rng.below(14) { 0 => rng.bytes(256), 1 => rng.bytes(255), _ => rng.bytes_below(30) };
+        SimNode { id, addr, peers, history: vec![token.clone()], token, rotating: rng.chance(1, 3), last_at: 0, issued: 0 }
     }).collect();
     nodes.dedup_by(|a, b| a.id == b.id);
     let closest8 = |nodes: &Vec<SimNode>, target: &[u8]| -> Vec<usize> {
@@ -871,17 +881,36 @@ async fn run_scenario(ctx: &mut Option<Ctx>, req: &str, case: usize, out: &mut V
             let Some(k) = c.names.iter().position(|x| *x == m.transaction_id) else { continue };
             let Some(ni) = nodes.iter().position(|x| x.addr == dst) else { continue };
             if answered.contains(&m.transaction_id) { continue }
-            let nd = SimNode { id: nodes[ni].id.clone(), addr: nodes[ni].addr, peers: nodes[ni].peers.clone(), token: nodes[ni].token.clone() };
+            let lat = |rng: &mut Rng| rng.below(1000) as u128 * MS;
+            // a rotating node issues a fresh token with this answer (only where every answer is delivered,
+            // in issue order: the oracle's "token that very node issued" is then the latest one)
+            let mut fifo_at: Option<u128> = None;
+            if nodes[ni].rotating && (policy == "truthful" || policy == "chain") {
+                nodes[ni].issued += 1;
+                let mut tk = nodes[ni].token.clone();
+                if tk.is_empty() { tk.push(0) }
+                let l = tk.len();
+                tk[l - 1] = tk[l - 1].wrapping_add(1);
+                nodes[ni].token = tk.clone();
+                nodes[ni].history.push(tk);
+                let at = (t + lat(&mut rng)).max(nodes[ni].last_at + 1);
+                // still within the second the property grants
+                let at = at.min(t + 999 * MS).max(nodes[ni].last_at + 1);
+                nodes[ni].last_at = at;
+                fifo_at = Some(at);
+                st.hit("net_rotating_token_answer");
+                if nodes[ni].issued > 1 { st.hit("net_node_asked_twice_rotating"); }
+            }
+            let nd = SimNode { id: nodes[ni].id.clone(), addr: nodes[ni].addr, peers: nodes[ni].peers.clone(), token: nodes[ni].token.clone(), rotating: false, last_at: 0, issued: 0, history: vec![] };
             let nd = &nd;
             let c8: Vec<String> = closest8(&nodes, &ih).iter().map(|i| format!("{}@{}", hex(&nodes[*i].id), addr_str(&nodes[*i].addr))).collect();
             let nodes_field = |list: &Vec<String>| if list.is_empty() { "-".to_string() } else { list.join(";") };
             let vals = if nd.peers.is_empty() { "-".to_string() } else { nd.peers.iter().map(addr_str).collect::<Vec<_>>().join(";") };
             let (nk, n6k) = if v6 { ("nodes=-".to_string(), format!("nodes6={}", nodes_field(&c8))) } else { (format!("nodes={}", nodes_field(&c8)), "nodes6=-".to_string()) };
             let good = format!("in #{k} {} r id={} values={vals} {nk} {n6k} token={}", addr_str(&nd.addr), hex(&nd.id), hex_or_dash(&nd.token));
-            let lat = |rng: &mut Rng| rng.below(1000) as u128 * MS;
             match policy.as_str() {
                 "silent" => {}
-                "truthful" => { events.push((t + lat(&mut rng), good)); answered.insert(m.transaction_id.clone()); }
+                "truthful" => { let at = fifo_at.unwrap_or_else(|| t + lat(&mut rng)); events.push((at, good)); answered.insert(m.transaction_id.clone()); }
                 "lossy" => {
                     match rng.below(10) {
                         0..=2 => {}
@@ -903,10 +932,10 @@ async fn run_scenario(ctx: &mut Option<Ctx>, req: &str, case: usize, out: &mut V
                             let i = nodes.len();
                             let addr = parse_addr(&format!("v4:{}:{}", hex(&[10, 3, (i >> 8) as u8, i as u8]), 8100)).unwrap();
                             named.push(format!("{}@{}", hex(&id), addr_str(&addr)));
-                            nodes.push(SimNode { id, addr, peers: vec![], token: rng.bytes(8) });
+                            let tk = rng.bytes(8); nodes.push(SimNode { id, addr, peers: vec![], history: vec![tk.clone()], token: tk, rotating: rng.chance(1, 3), last_at: 0, issued: 0 });
                         }
                     }
-                    events.push((t + lat(&mut rng), format!("in #{k} {} r id={} values=- nodes={} nodes6=- token={}", addr_str(&nd.addr), hex(&nd.id), nodes_field(&named), hex_or_dash(&nd.token))));
+                    events.push((fifo_at.unwrap_or_else(|| t + lat(&mut rng)), format!("in #{k} {} r id={} values=- nodes={} nodes6=- token={}", addr_str(&nd.addr), hex(&nd.id), nodes_field(&named), hex_or_dash(&nd.token))));
                 }
                 _ => {
                     // hostile
@@ -922,7 +951,16 @@ async fn run_scenario(ctx: &mut Option<Ctx>, req: &str, case: usize, out: &mut V
                     let (jn, jn6) = if v6 { ("nodes=-".to_string(), format!("nodes6={}", nodes_field(&junk_nodes))) } else { (format!("nodes={}", nodes_field(&junk_nodes)), "nodes6=-".to_string()) };
                     let forged_vals = format!("{};{}", gen_addr(&mut rng, false, 900), gen_addr(&mut rng, false, 900));
                     let at = t + lat(&mut rng);
-                    match rng.below(14) {
+                    match rng.below(16) {
+                        // the node answers its own query and, a moment later, a query the search sent to somebody
+                        // else (the handler does not tie an id to the node it was sent to) with another token:
+                        // the announce has to carry the latest one (round-3 seed C03)
+                        14 | 15 if k > 0 => {
+                            let j = k - 1 - rng.below((k as u64).min(3)) as usize;
+                            events.push((at, good.clone()));
+                            events.push((at + 1 + rng.below(200) as u128 * MS, format!("in #{j} {} r id={} values={vals} {jn} {jn6} token={}", addr_str(&nd.addr), hex(&nd.id), hex(&rng.bytes(7)))));
+                            st.hit("net_hostile_two_answers_two_tokens");
+                        }
                         // the outstanding id (or the refresh prefix) followed by further bytes: not an id of this node
                         12 => { let l = *rng.pick(&[1usize, 1, 4]); events.push((at, format!("in #{k}+{} {} r id={} values={forged_vals} {jn} {jn6} token={}", hex(&rng.bytes(l)), addr_str(&nd.addr), hex(&nd.id), hex(&rng.bytes(4))))) }
                         13 => events.push((at, format!("in R~fresh+{} {other_src} r id={} values={forged_vals} {jn} {jn6} token=none", hex(&rng.bytes(1)), hex(&rng.bytes(20))))),
@@ -978,7 +1016,10 @@ async fn run_scenario(ctx: &mut Option<Ctx>, req: &str, case: usize, out: &mut V
             }
             for (a, tok) in &li.announces {
                 if let Some(nd) = nodes.iter().find(|x| x.addr == *a) {
-                    if *tok != nd.token { st.fail(case, out.len().saturating_sub(1), "[C02] announce_peer carries another token than the one that very node issued"); }
+                    // the token of that node's latest answer to *this* search (several searches may run at once,
+                    // and a node may hand out another token with every answer)
+                    let latest = li.tokens.get(&(nd.id.clone(), nd.addr));
+                    if !nd.history.contains(tok) || latest != Some(tok) { st.fail(case, out.len().saturating_sub(1), "[C02] announce_peer carries another token than the one that very node issued"); }
                 }
             }
             let mut y: Vec<String> = li.yielded.iter().map(addr_str).collect();
